@@ -11,8 +11,7 @@ value-sorted arrangement (NumPy's argsort is not stable, so ties may come in any
 hypotheses `Sorted vals`, `Sorted cq` (weights ≥ 0), equal lengths, non-empty.
 
 * `merge_within_minmax`  — every method, every `d`: `vals[0] ≤ select … d ≤ vals[n-1]`
-* `merge_monotone_in_q`  — lower / higher / midpoint / linear: `d ≤ d' → select d ≤ select d'`
-* `merge_monotone_nearest_partial` — nearest: monotone against the pinned ends only (interior: validated)
+* `merge_monotone_in_q`  — all five methods: `d ≤ d' → select d ≤ select d'` (`nearest_mono` is the delicate case)
 * `q0_q100`              — `d ≤ 0` gives `vals[0]`, `d ≥ cq[n-1]` gives `vals[n-1]` (after the two fixes)
 * `first_is_min` / `last_is_max` — `vals[0]`/`vals[n-1]` are the smallest/largest merged value
 * `mergePercentiles_*`   — the same for the outputs of the executable `mergePercentiles` (stable sort).
@@ -121,6 +120,65 @@ theorem lt_of_countLe_le {cq : List Rat} (hs : Sorted cq) (d : Rat) :
         have h2 : nth (x :: xs) (i + 1) = xs[i]'(by simpa using hi) := by
           rw [nth_eq_getElem (x :: xs) (i + 1) hi]; rfl
         rw [h2]; exact lt_of_lt_of_le hxd this
+
+/-- on a sorted list the first `countLt` entries are `< d` … -/
+theorem lt_of_lt_countLt {cq : List Rat} (hs : Sorted cq) (d : Rat) :
+    ∀ i, i < countLt cq d → nth cq i < d := by
+  induction cq with
+  | nil => intro i h; simp [countLt] at h
+  | cons x xs ih =>
+    intro i h
+    have hs' : Sorted xs := (List.pairwise_cons.mp hs).2
+    have hx := (List.pairwise_cons.mp hs).1
+    by_cases h1 : x < d
+    · cases i with
+      | zero => simpa [nth] using h1
+      | succ i =>
+        have : i < countLt xs d := by
+          simp only [countLt, List.filter_cons, h1, decide_true, if_true, List.length_cons] at h
+          unfold countLt; omega
+        have := ih hs' i this
+        simpa [nth] using this
+    · have hnil : xs.filter (· < d) = [] := by
+        apply List.filter_eq_nil_iff.mpr
+        intro y hy
+        have := hx y hy
+        simp only [decide_eq_true_eq]
+        intro hyd; exact h1 (lt_of_le_of_lt this hyd)
+      simp [countLt, List.filter_cons, h1, hnil] at h
+
+/-- … and all later entries are `≥ d` -/
+theorem ge_of_countLt_le {cq : List Rat} (hs : Sorted cq) (d : Rat) :
+    ∀ i, countLt cq d ≤ i → i < cq.length → d ≤ nth cq i := by
+  induction cq with
+  | nil => intro i _ h; simp at h
+  | cons x xs ih =>
+    intro i h hi
+    have hs' : Sorted xs := (List.pairwise_cons.mp hs).2
+    have hx := (List.pairwise_cons.mp hs).1
+    by_cases h1 : x < d
+    · cases i with
+      | zero => simp [countLt, List.filter_cons, h1] at h
+      | succ i =>
+        have hc : countLt xs d ≤ i := by
+          simp only [countLt, List.filter_cons, h1, decide_true, if_true, List.length_cons] at h
+          unfold countLt; omega
+        have := ih hs' i hc (by simpa using hi)
+        simpa [nth] using this
+    · have hxd : d ≤ x := le_of_not_gt h1
+      cases i with
+      | zero => simpa [nth] using hxd
+      | succ i =>
+        have hmem : xs[i]'(by simpa using hi) ∈ xs := List.getElem_mem _
+        have := hx _ hmem
+        have h2 : nth (x :: xs) (i + 1) = xs[i]'(by simpa using hi) := by
+          rw [nth_eq_getElem (x :: xs) (i + 1) hi]; rfl
+        rw [h2]; exact le_trans hxd this
+
+theorem rabs_of_nonneg {x : Rat} (h : 0 ≤ x) : rabs x = x := by
+  unfold rabs; rw [if_neg (not_lt.mpr h)]
+theorem rabs_of_neg {x : Rat} (h : x < 0) : rabs x = -x := by
+  unfold rabs; rw [if_pos h]
 
 section bounds
 variable {vals cq : List Rat} (hv : Sorted vals) (hc : Sorted cq) (hlen : vals.length = cq.length)
@@ -272,7 +330,7 @@ theorem interp_mono {d d' : Rat} (h : d ≤ d') : interp cq vals d ≤ interp cq
           mul_le_mul_of_nonneg_right (by linarith) hD0
         linarith
 
-theorem core_mono (m : Method) (hm : m ≠ .nearest) {d d' : Rat} (h : d ≤ d') :
+theorem core_mono_non_nearest (m : Method) (hm : m ≠ .nearest) {d d' : Rat} (h : d ≤ d') :
     core m vals cq d ≤ core m vals cq d' := by
   have hl := lowerIdx_mono hv hc hlen hne h
   have hu := upperIdx_mono hv hc hlen hne h
@@ -285,8 +343,81 @@ theorem core_mono (m : Method) (hm : m ≠ .nearest) {d d' : Rat} (h : d ≤ d')
   | midpoint => simp only [core]; linarith
   | nearest => exact absurd rfl hm
 
-/-- **merge_monotone_in_q** (lower, higher, midpoint, linear): non-decreasing in the desired weight. -/
-theorem merge_monotone_in_q (m : Method) (hm : m ≠ .nearest) {d d' : Rat} (h : d ≤ d') :
+/-- `nearest` is monotone too: the only way to go down would be to pick the upper neighbour for `d` and the
+    lower neighbour of the *same* gap for a larger `d'`, which the distance comparison excludes. -/
+theorem nearest_mono {d d' : Rat} (h : d ≤ d') :
+    core .nearest vals cq d ≤ core .nearest vals cq d' := by
+  have hl := lowerIdx_mono hv hc hlen hne h
+  have hu := upperIdx_mono hv hc hlen hne h
+  have hlt := lowerIdx_lt hv hc hlen hne d
+  have hut := upperIdx_lt hv hc hlen hne d
+  have hlt' := lowerIdx_lt hv hc hlen hne d'
+  have hut' := upperIdx_lt hv hc hlen hne d'
+  have hlu : lowerIdx cq vals.length d ≤ upperIdx cq vals.length d := by unfold lowerIdx upperIdx; omega
+  have hlu' : lowerIdx cq vals.length d' ≤ upperIdx cq vals.length d' := by unfold lowerIdx upperIdx; omega
+  simp only [core]
+  by_cases hR : rabs (nth cq (lowerIdx cq vals.length d) - d) > rabs (nth cq (upperIdx cq vals.length d) - d)
+  · rw [if_pos hR]
+    by_cases hR' : rabs (nth cq (lowerIdx cq vals.length d') - d') > rabs (nth cq (upperIdx cq vals.length d') - d')
+    · rw [if_pos hR']; exact nth_mono hv hu hut'
+    · rw [if_neg hR']
+      by_cases hcross : upperIdx cq vals.length d ≤ lowerIdx cq vals.length d'
+      · exact nth_mono hv hcross hlt'
+      · exfalso
+        -- same gap: both `d` and `d'` lie strictly between cq[A-1] and cq[A]
+        have hab := countLt_le_countLe cq d
+        have hab' := countLt_le_countLe cq d'
+        have hbn := countLe_le_length cq d
+        have hbn' := countLe_le_length cq d'
+        have ha := countLt_mono cq h
+        have hb := countLe_mono cq h
+        set A := countLt cq d with hA
+        set B := countLe cq d with hB
+        set A' := countLt cq d' with hA'
+        set B' := countLe cq d' with hB'
+        have hne' : lowerIdx cq vals.length d ≠ upperIdx cq vals.length d := by
+          intro he; rw [he] at hR; exact lt_irrefl _ hR
+        -- the case A < B is impossible: both neighbours carry weight exactly d
+        by_cases hAB : A < B
+        · have hlo : lowerIdx cq vals.length d = A := by unfold lowerIdx; omega
+          have hhi : upperIdx cq vals.length d = B - 1 := by unfold upperIdx; omega
+          have e1 : nth cq A = d := le_antisymm (le_of_lt_countLe hc d A (by omega))
+            (ge_of_countLt_le hc d A (le_refl _) (by omega))
+          have e2 : nth cq (B - 1) = d := le_antisymm (le_of_lt_countLe hc d (B - 1) (by omega))
+            (ge_of_countLt_le hc d (B - 1) (by omega) (by omega))
+          rw [hlo, hhi, e1, e2] at hR
+          exact lt_irrefl _ hR
+        · have hAeq : A = B := by omega
+          have hA1 : 1 ≤ A ∧ A ≤ vals.length - 1 := by
+            simp only [lowerIdx, upperIdx] at hne'; omega
+          have hlo : lowerIdx cq vals.length d = A - 1 := by unfold lowerIdx; omega
+          have hhi : upperIdx cq vals.length d = A := by unfold upperIdx; omega
+          have hB'A : B' = A := by simp only [lowerIdx, upperIdx] at hcross hl; omega
+          have hA'A : A' = A := by omega
+          have hlo' : lowerIdx cq vals.length d' = A - 1 := by unfold lowerIdx; omega
+          have hhi' : upperIdx cq vals.length d' = A := by unfold upperIdx; omega
+          have c1 : nth cq (A - 1) < d := lt_of_lt_countLt hc d (A - 1) (by omega)
+          have c2 : d' < nth cq A := lt_of_countLe_le hc d' A (by omega) (by omega)
+          have r1 : rabs (nth cq (A - 1) - d) = -(nth cq (A - 1) - d) := rabs_of_neg (by linarith)
+          have r2 : rabs (nth cq A - d) = nth cq A - d := rabs_of_nonneg (by linarith)
+          have r3 : rabs (nth cq (A - 1) - d') = -(nth cq (A - 1) - d') := rabs_of_neg (by linarith)
+          have r4 : rabs (nth cq A - d') = nth cq A - d' := rabs_of_nonneg (by linarith)
+          rw [hlo, hhi, r1, r2] at hR
+          rw [hlo', hhi', r3, r4] at hR'
+          linarith
+  · rw [if_neg hR]
+    by_cases hR' : rabs (nth cq (lowerIdx cq vals.length d') - d') > rabs (nth cq (upperIdx cq vals.length d') - d')
+    · rw [if_pos hR']; exact nth_mono hv (le_trans hl hlu') hut'
+    · rw [if_neg hR']; exact nth_mono hv hl hlt'
+
+theorem core_mono (m : Method) {d d' : Rat} (h : d ≤ d') : core m vals cq d ≤ core m vals cq d' := by
+  by_cases hm : m = .nearest
+  · subst hm; exact nearest_mono hv hc hlen hne h
+  · exact core_mono_non_nearest hv hc hlen hne m hm h
+
+/-- **merge_monotone_in_q** (all five methods): the output is non-decreasing in the desired weight, hence
+    in `q`. -/
+theorem merge_monotone_in_q (m : Method) {d d' : Rat} (h : d ≤ d') :
     select m vals cq d ≤ select m vals cq d' := by
   have W := merge_within_minmax hv hc hlen hne m
   by_cases h1 : d' ≥ nth cq (cq.length - 1)
@@ -300,24 +431,7 @@ theorem merge_monotone_in_q (m : Method) (hm : m ≠ .nearest) {d d' : Rat} (h :
       · have h4 : ¬ d' ≤ 0 := fun h4 => h3 (le_trans h h4)
         unfold select
         rw [if_neg h1, if_neg h2, if_neg h3, if_neg h4]
-        exact core_mono hv hc hlen hne m hm h
-
-/-- nearest: monotone whenever one of the two arguments is pinned (`_partial`; the interior case is
-    validated by the correspondence check, not proved). -/
-theorem merge_monotone_nearest_partial {d d' : Rat} (h : d ≤ d')
-    (hp : d ≤ 0 ∨ nth cq (cq.length - 1) ≤ d') :
-    select .nearest vals cq d ≤ select .nearest vals cq d' := by
-  have W := merge_within_minmax hv hc hlen hne .nearest
-  rcases hp with hp | hp
-  · by_cases h2 : d ≥ nth cq (cq.length - 1)
-    · have e1 : select .nearest vals cq d = nth vals (vals.length - 1) := by unfold select; rw [if_pos h2]
-      have e2 : select .nearest vals cq d' = nth vals (vals.length - 1) := by
-        unfold select; rw [if_pos (le_trans h2 h)]
-      rw [e1, e2]
-    · have : select .nearest vals cq d = nth vals 0 := by unfold select; rw [if_neg h2, if_pos hp]
-      rw [this]; exact (W d').1
-  · have : select .nearest vals cq d' = nth vals (vals.length - 1) := by unfold select; rw [if_pos hp]
-    rw [this]; exact (W d).2
+        exact core_mono hv hc hlen hne m h
 
 /-- the first / last merged value is the minimum / maximum of all merged values -/
 theorem first_is_min : nth vals 0 ∈ vals ∧ ∀ v ∈ vals, nth vals 0 ≤ v := by
